@@ -558,6 +558,43 @@ int main(int argc, char** argv) {
                    oracle_selftest(t);
                  }});
   }
+  // texts with the maximal number of values per byte (one-character scalars, no blanks, empty keys): the parser's node stack
+  // is sized from the text length, so these are the valid texts that fill it to the brim; every length 2..400
+  S.push_back({"densest_valid_texts", 400, 400, [](uint64_t i, vf::Rng& r) {
+                 size_t n = i + 2;
+                 for (int shape = 0; shape < 4; shape++) {
+                   std::string t;
+                   switch (shape) {
+                     case 0:  // [1,2,3,...]
+                       t = "[";
+                       while (t.size() + 2 <= n) t += std::string(1, (char)('0' + r.below(10))) + ",";
+                       if (t.back() == ',') t.pop_back();
+                       t += "]";
+                       break;
+                     case 1: {  // tail nesting [1,1,...,[1,[1,1]]]
+                       t = "[";
+                       size_t d = r.range(1, 5);
+                       while (t.size() + 2 + 3 * d <= n) t += "1,";
+                       std::string tail = "1";
+                       for (size_t k = 0; k < d; k++) tail = "[1," + tail + "]";
+                       t += tail + "]";
+                       break;
+                     }
+                     case 2:  // {"":1,"":2,...} (duplicate empty keys are legal JSON)
+                       t = "{";
+                       while (t.size() + 5 <= n) t += "\"\":" + std::string(1, (char)('0' + r.below(10))) + ",";
+                       if (t.back() == ',') t.pop_back();
+                       t += "}";
+                       break;
+                     default:  // [[],[],{},...]
+                       t = "[";
+                       while (t.size() + 3 <= n) t += r.coin() ? "[]," : "{},";
+                       if (t.back() == ',') t.pop_back();
+                       t += "]";
+                   }
+                   one_input(t);
+                 }
+               }, false});
   // generated valid documents x leading pad 0..63 (every token visits every offset mod 64)
   S.push_back({"valid_doc_x_pad", (uint64_t)(c02 ? 300 : 1500), (uint64_t)(c02 ? 5000 : 60000), [seed](uint64_t i, vf::Rng& r) {
                  std::string t = doc_text(seed, "valid_doc", i);
